@@ -190,7 +190,7 @@ def extract_reuse_info(text: str) -> ReuseInfo:
         # that a holder that merely ends in the comment character ('# Copyright
         # Team C#') is left alone. A prefix made of letters ('c', 'dnl') is
         # never a frame.
-        suffix = line[: match.start()].strip()[::-1]
+        suffix = line[: match.start()].lstrip("\ufeff").strip()[::-1]
         if (
             suffix
             and not any(char.isalnum() for char in suffix)
@@ -256,7 +256,8 @@ def find_spdx_tag(text: str, pattern: re.Pattern) -> Iterator[str]:
     of stripping extraneous whitespace of formatting.
     """
     for prefix, value in pattern.findall(text):
-        prefix, value = prefix.strip(), value.strip()
+        # A byte order mark in front of the first line is no comment prefix.
+        prefix, value = prefix.lstrip("\ufeff").strip(), value.strip()
 
         # Some comment headers have ASCII art to "frame" the comment, like this:
         #
@@ -277,7 +278,10 @@ def find_spdx_tag(text: str, pattern: re.Pattern) -> Iterator[str]:
         ):
             value = value[: -len(suffix)]
 
-        yield value.strip()
+        # A tag without a value states nothing.
+        value = value.strip()
+        if value:
+            yield value
 
 
 def filter_ignore_block(text: str) -> str:
